@@ -70,7 +70,14 @@ class C09(InterpProp):
         kn = self.knobs(rnd, tier)
         g = gen.ChartGen(rnd, kn)
         sc = g.build()
-        return self._pair(ChartEnc(sc), sc, gen.gen_ops(rnd, kn, self.n_ops))
+        mut = rnd.random() < 0.15
+        if mut:
+            gen.add_mutables(rnd, sc)
+        case = self._pair(ChartEnc(sc), sc, gen.gen_ops(rnd, kn, self.n_ops))
+        if mut:
+            # the implementation-side `__old__` channel: was a failing condition shown the documented __old__?
+            case.payload['record_old'] = True
+        return case
 
     def _pair(self, enc, sc, ops1):
         ops = [['create', 0, False, [], 0], ['create', 0, True, [], 0]]
@@ -81,6 +88,18 @@ class C09(InterpProp):
             ops.append(op2)
         payload = {'kind': 'interp', 'charts': [enc.json], 'ops': ops}
         return Case(payload, {'charts': [sc]}, model_ok=enc.supported)
+
+    @staticmethod
+    def old_mismatch(r):
+        snaps = {}
+        last = None
+        for e in r.get('oldchk', []):
+            if e[0] == 'snap':
+                snaps[json.dumps(e[1])] = e[2]
+            else:
+                want = snaps.get(json.dumps(e[2]))
+                last = (e[4], want) if (want is not None and e[4] != want) else None
+        return last       # about the last condition evaluated: the one that failed
 
     def shrink_candidates(self, case):
         p = case.payload
@@ -114,6 +133,12 @@ class C09(InterpProp):
                     'PreconditionError', 'PostconditionError', 'InvariantError'):
                 clean = False
                 res.features.add('contract-failed')
+                w = self.old_mismatch(ra)
+                if w:
+                    res.violations.append('op %d: %s raised by the checking run on a condition that was shown %s as __old__ although '
+                                          'the variables were %s when its state was entered / its transition started: with the '
+                                          'documented __old__ no condition fails here, and the run ignoring contracts goes on'
+                                          % (k, ra['err']['class'], w[0], w[1]))
                 continue
             if isinstance(ra, dict) and ra.get('outcome') == 'error' and any(
                     e[0] == 'cond' and e[5] is None for e in ra.get('eff', [])):
@@ -123,6 +148,9 @@ class C09(InterpProp):
             if isinstance(ra, dict) and 'eff' in ra:
                 nconds += sum(1 for e in ra['eff'] if e[0] == 'cond')
                 ra = dict(ra, eff=[e for e in ra['eff'] if e[0] != 'cond'])
+                ra.pop('oldchk', None)
+                rb = dict(rb)
+                rb.pop('oldchk', None)
             d = engine.diff(ra, rb)
             if d is None:
                 d = engine.diff(b['world']['slots'][0], b['world']['slots'][1])
